@@ -3,7 +3,11 @@ import Srtla.Model.Link
 import Srtla.Model.Sys
 import Srtla.Lemmas.StallLatch
 import Srtla.Lemmas.SelGate
+import Srtla.Lemmas.SelShellLatch
+import Srtla.Lemmas.SelShellHistory
+import Srtla.Lemmas.ForwardStep
 import Srtla.Props.C04
+import Srtla.Props.C09
 /-!
 # C13 — stall latch: quick to drop, conservative to rejoin, never blind
 
@@ -35,6 +39,20 @@ Round 2 additions:
 * §11 the alphabet is tied to the full link model (`Model/Link.lean`, `Model/Sys.lean`):
   `reset` = `reset_core_state`, `mark_for_recovery` / `reset_for_reconnect` = `reset ; env`,
   REG3 = `env`, the shell's scheduling step = `env ; sel|selOff ; env ; env`.
+
+Round 3 addition:
+* §12 the latch along runs of the validated shell (`Sys.step` / `Sys.run`, every event constructor):
+  the latch fields of a link move only in the selection pass of a `client` event and by a tear-down
+  (`C13_latch_fields_frame_sys`, `C13_latch_fields_client_sys`); engage / release / pull-release
+  conditions in terms of the link's own fields and the shell's configuration at that event
+  (`C13_engage_only_if_sys`, `C13_unlatch_only_by_sys`, `C13_release_iff_sys`,
+  `C13_pull_release_only_if_heard_sys`); provenance of the proof stamp over all events
+  (`C13_proof_stamp_sys`, citing `C09_proof_stamp`); the run invariant "no delivery proof since the
+  last reset ⇒ not latched" (`C13_never_proof_never_latched_step/_run/_from_init`); a single ACK never
+  releases along shell runs (`C13_single_ack_never_releases_sys_run`).
+* §13 a shell run seen from one link IS a history of the step alphabet: the explicit history
+  `SelShell.runSteps s evs j` (`C13_shell_run_is_history`, `C13_history_steps`), and with it the temporal
+  dwell theorem over shell runs (`C13_release_only_after_dwell_sys_run`).
 -/
 namespace Srtla.Props.C13
 open Srtla.Select Srtla.StallLatch Srtla
@@ -1014,5 +1032,827 @@ example :
   decide +kernel
 
 end alphabet
+
+/-! ## 12. The latch along runs of the shell (`Sys.step`, `Sys.run`)
+
+Sections 2-11 are about one link's selection view and an abstract step alphabet.  Here the same
+statements are made about the validated shell model itself (`Model/Sys.lean`; `Sys.step s e` is one
+arm of the event loop, `Sys.run` a list of them; component `sys` runs it bit-for-bit against
+`handle_srt_packet` / `handle_uplink_packet` / `flush_all_batches` / `handle_housekeeping`), for EVERY
+event constructor, every link index `j` (`l` = the link before the event, `l'` = the link at the same
+index after it; the number of links never changes), any number of links, any configuration, any
+registration state, any scalar instance (`Float` included).
+
+Closed forms of one event, link by link: `Lemmas/SelShellStep.lean`; the guard fields read off them:
+`Lemmas/SelShellLatch.lean`. -/
+
+section shellRuns
+variable [Scalar F]
+open Srtla.Link Srtla.SelShell
+
+/-- The link was torn down in this event — `reset_core_state` ran: `mark_for_recovery` (a failed send in a
+`client` event, REG_ERR in an `uplink` event) or `reset_for_reconnect` (housekeeping's reconnect attempt).
+Latch, recovery run, silence pull, gate flag and heard-mark are cleared, the proof stamp is 0 ("never"),
+the link is disconnected. -/
+def TornDown (l' : FLink F) : Prop :=
+  l'.latchedSince = 0 ∧ l'.recoverySince = 0 ∧ l'.silencePulled = false ∧ l'.stallGated = false ∧
+  l'.pullMark = none ∧ l'.core.proofMs = 0 ∧ l'.core.connected = false
+
+/-- The guard's seven private fields are unchanged (`latchedSince`, `recoverySince`, `silencePulled`,
+`stallGated`, the heard-mark and the two lifetime counters). -/
+def SameGuard (l l' : FLink F) : Prop :=
+  l'.latchedSince = l.latchedSince ∧ l'.recoverySince = l.recoverySince ∧
+  l'.silencePulled = l.silencePulled ∧ l'.stallGated = l.stallGated ∧ l'.pullMark = l.pullMark ∧
+  l'.gateEvents = l.gateEvents ∧ l'.silencePulls = l.silencePulls
+
+omit [Scalar F] in
+theorem sameGuard_of_keep {l l' : FLink F} (h : GKeep l l') : SameGuard l l' :=
+  ⟨h.latched, h.recovery, h.pulled, h.gated, h.mark, h.gateEvents, h.pulls⟩
+
+omit [Scalar F] in
+theorem sameGuard_of_same {l l' : FLink F} (h : GSame l l') : SameGuard l l' :=
+  ⟨h.latched, h.recovery, h.pulled, h.gated, h.mark, h.gateEvents, h.pulls⟩
+
+omit [Scalar F] in
+theorem tornDown_of_torn {l l' : FLink F} (h : SelShell.Torn l l') :
+    TornDown l' ∧ l'.gateEvents = l.gateEvents ∧ l'.silencePulls = l.silencePulls :=
+  ⟨⟨h.latched, h.recovery, h.pulled, h.gated, h.mark, h.proof, h.connected⟩, h.gateEvents, h.pulls⟩
+
+/-- `SameGuard ∨ torn down`, and in the first case what happened to the proof stamp: kept, or stamped
+with the event's clock `t`. -/
+def FrameFx (t : Nat) (l l' : FLink F) : Prop :=
+  (SameGuard l l' ∧ (l'.core.proofMs = l.core.proofMs ∨ l'.core.proofMs = t)) ∨
+  (TornDown l' ∧ l'.gateEvents = l.gateEvents ∧ l'.silencePulls = l.silencePulls)
+
+omit [Scalar F] in
+theorem frameFx_of_keepOrTorn {t : Nat} {l l' : FLink F} (h : KeepOrTorn l l') : FrameFx t l l' :=
+  h.elim (fun h => .inl ⟨sameGuard_of_keep h, .inl h.proof⟩) (fun h => .inr (tornDown_of_torn h))
+
+/-! ### one lemma per event constructor -/
+
+theorem frame_uplink (s : Sys.Sys F) (now cid : Nat) (data : Sys.Bytes) (j : Nat) (l l' : FLink F)
+    (hl : s.links[j]? = some l) (hl' : (Sys.step s (.uplink now cid data)).1.links[j]? = some l') :
+    FrameFx now l l' := by
+  cases uplink_guard s cid data now j l l' hl hl' with
+  | keep h => exact .inl ⟨sameGuard_of_keep h, .inl h.proof⟩
+  | sack h _ hp _ => exact .inl ⟨sameGuard_of_same h, .inr hp⟩
+  | echo h _ hp _ => exact .inl ⟨sameGuard_of_same h, .inr hp⟩
+  | reg3 h hp _ => exact .inl ⟨sameGuard_of_same h, .inl hp⟩
+  | torn h => exact .inr (tornDown_of_torn h)
+
+theorem frame_flush (s : Sys.Sys F) (now : Nat) (j : Nat) (l l' : FLink F)
+    (hl : s.links[j]? = some l) (hl' : (Sys.step s (.flush now)).1.links[j]? = some l') :
+    FrameFx now l l' :=
+  frameFx_of_keepOrTorn (.inl (flush_guard s now j l l' hl hl'))
+
+theorem frame_hk (s : Sys.Sys F) (now : Nat) (j : Nat) (l l' : FLink F)
+    (hl : s.links[j]? = some l) (hl' : (Sys.step s (.hk now)).1.links[j]? = some l') :
+    FrameFx now l l' :=
+  frameFx_of_keepOrTorn (hk_guard s now j l l' hl hl')
+
+theorem frame_cfg (s : Sys.Sys F) (e : Sys.Ev) (he : isArm e = false) (j : Nat) (l l' : FLink F)
+    (hl : s.links[j]? = some l) (hl' : (Sys.step s e).1.links[j]? = some l') :
+    FrameFx 0 l l' :=
+  frameFx_of_keepOrTorn (.inl (cfg_guard s e he j l l' hl hl'))
+
+/-- Every event that is neither a `client` nor an `uplink` event keeps the guard fields, the proof stamp
+and `connected` of every link, or tears the link down. -/
+theorem keepOrTorn_other (s : Sys.Sys F) (e : Sys.Ev) (hne : ∀ now pkt, e ≠ .client now pkt)
+    (hu : ∀ now cid data, e ≠ .uplink now cid data) (j : Nat) (l l' : FLink F)
+    (hl : s.links[j]? = some l) (hl' : (Sys.step s e).1.links[j]? = some l') : KeepOrTorn l l' := by
+  cases e with
+  | client now pkt => exact absurd rfl (hne now pkt)
+  | uplink now cid data => exact absurd rfl (hu now cid data)
+  | flush now => exact .inl (flush_guard s now j l l' hl hl')
+  | hk now => exact hk_guard s now j l l' hl hl'
+  | _ => exact .inl (cfg_guard s _ rfl j l l' hl hl')
+
+/-- The clock an event reads (0 for the clock-less configuration events). -/
+def evClock : Sys.Ev → Nat
+  | .client now _ => now
+  | .uplink now _ _ => now
+  | .flush now => now
+  | .hk now => now
+  | _ => 0
+
+/-- **The latch fields move only in selection passes and by resets.**  For every event that is NOT a
+`client` event (an uplink datagram of any kind — SRT ACK / NAK, SRTLA ACK, keepalive echo, REG_NGP / REG2 /
+REG3 / REG_ERR —, the 15 ms flush tick, the housekeeping tick with its keepalives, window recovery, phase
+updates and reconnect attempts, a configuration change, a critical-window or fault-injection event) and
+every link: EITHER the guard's seven private fields — `stall_latched_since_ms`,
+`stall_recovery_since_ms`, `silence_pulled`, `stall_gated`, the heard-mark, `stall_gate_events`,
+`silence_pulls` — are all unchanged, and the proof stamp is unchanged or was stamped with the event's
+clock; OR the link was torn down in this event (`TornDown`: everything cleared, proof stamp 0,
+disconnected; the two lifetime counters survive). -/
+theorem C13_latch_fields_frame_sys (s : Sys.Sys F) (e : Sys.Ev) (hne : ∀ now pkt, e ≠ .client now pkt)
+    (j : Nat) (l l' : FLink F) (hl : s.links[j]? = some l) (hl' : (Sys.step s e).1.links[j]? = some l') :
+    (SameGuard l l' ∧ (l'.core.proofMs = l.core.proofMs ∨ l'.core.proofMs = evClock e)) ∨
+    (TornDown l' ∧ l'.gateEvents = l.gateEvents ∧ l'.silencePulls = l.silencePulls) := by
+  by_cases ha : isArm e = false
+  · rcases frame_cfg s e ha j l l' hl hl' with ⟨h1, h2⟩ | h
+    · refine .inl ⟨h1, ?_⟩
+      rcases h2 with h2 | h2
+      · exact .inl h2
+      · have : evClock e = 0 := by cases e <;> first | rfl | cases ha
+        rw [this]; exact .inr h2
+    · exact .inr h
+  · cases e with
+    | client now pkt => exact absurd rfl (hne now pkt)
+    | uplink now cid data => exact frame_uplink s now cid data j l l' hl hl'
+    | flush now => exact frame_flush s now j l l' hl hl'
+    | hk now => exact frame_hk s now j l l' hl hl'
+    | _ => exact absurd rfl ha
+
+/-- What the selection pass of a `client` event leaves in link `j`, relative to the link `l` before the
+event (`m` = the link after the pass, before the datagram is forwarded). -/
+def PassFx (s : Sys.Sys F) (now : Nat) (pkt : Sys.Bytes) (l m : FLink F) : Prop :=
+  -- no pass: empty datagram, or registration not completed (pre-registration routing)
+  ((pkt = [] ∨ s.reg.hasConnected = false) ∧ m = l) ∨
+  -- guard on: `update_silence_pull` then `update_stall_latch` on the link's own view
+  (pkt ≠ [] ∧ s.reg.hasConnected = true ∧ s.cfg.stallDeselect = true ∧ m.core = l.core ∧
+    m.latchedSince = (sel l.toSLink now s.cfg.stallMinInFlight s.cfg.stallCeilingMs).latchedSince ∧
+    m.recoverySince = (sel l.toSLink now s.cfg.stallMinInFlight s.cfg.stallCeilingMs).recoverySince ∧
+    m.silencePulled = (sel l.toSLink now s.cfg.stallMinInFlight s.cfg.stallCeilingMs).silencePulled ∧
+    m.pullMark = (sel l.toSLink now s.cfg.stallMinInFlight s.cfg.stallCeilingMs).pullMark ∧
+    m.gateEvents = (sel l.toSLink now s.cfg.stallMinInFlight s.cfg.stallCeilingMs).gateEvents ∧
+    m.silencePulls = (sel l.toSLink now s.cfg.stallMinInFlight s.cfg.stallCeilingMs).silencePulls ∧
+    (m.stallGated = true → m.latchedSince ≠ 0 ∨ m.silencePulled = true)) ∨
+  -- guard off: cleared
+  (pkt ≠ [] ∧ s.reg.hasConnected = true ∧ s.cfg.stallDeselect = false ∧ m.core = l.core ∧
+    m.latchedSince = 0 ∧ m.recoverySince = 0 ∧ m.silencePulled = false ∧ m.stallGated = false ∧
+    m.pullMark = l.pullMark ∧ m.gateEvents = l.gateEvents ∧ m.silencePulls = l.silencePulls)
+
+omit [Scalar F] in
+theorem passRan_iff (s : Sys.Sys F) (pkt : Sys.Bytes) :
+    passRan s pkt = true ↔ pkt ≠ [] ∧ s.reg.hasConnected = true := by
+  unfold passRan
+  cases pkt <;> simp
+
+/-- **A `client` event = the selection pass, then forwarding.**  For every link `j` there is an
+intermediate record `m` (the link as `select_connection_idx` left it) such that `l → m` is the per-link
+guard pass (`PassFx`: `StallLatch.sel` on the link's own view with the configured thresholds when the
+guard is on, cleared when it is off, nothing when no pass runs) and `m → l'` — queueing the datagram or
+a probe copy, the threshold flush, the tear-down after a failed send — keeps the guard's seven fields
+and the proof stamp, or tears the link down. -/
+theorem C13_latch_fields_client_sys (s : Sys.Sys F) (now : Nat) (pkt : Sys.Bytes) (j : Nat) (l l' : FLink F)
+    (hl : s.links[j]? = some l) (hl' : (Sys.step s (.client now pkt)).1.links[j]? = some l') :
+    ∃ m : FLink F, PassFx s now pkt l m ∧
+      ((SameGuard m l' ∧ l'.core.proofMs = m.core.proofMs) ∨
+       (TornDown l' ∧ l'.gateEvents = m.gateEvents ∧ l'.silencePulls = m.silencePulls)) := by
+  obtain ⟨m, hk, hp⟩ := client_guard s pkt now j l l' hl hl'
+  refine ⟨m, ?_, hk.elim (fun h => .inl ⟨sameGuard_of_keep h, h.proof⟩) (fun h => .inr (tornDown_of_torn h))⟩
+  rcases hp with ⟨hp, rfl⟩ | ⟨hp, hm⟩
+  · left
+    refine ⟨?_, rfl⟩
+    have : ¬ (pkt ≠ [] ∧ s.reg.hasConnected = true) := by
+      rw [← passRan_iff]; simp [hp]
+    by_cases h : pkt = []
+    · exact .inl h
+    · right
+      cases hc : s.reg.hasConnected
+      · rfl
+      · exact absurd ⟨h, hc⟩ this
+  · obtain ⟨hne, hreg⟩ := (passRan_iff s pkt).1 hp
+    obtain ⟨hcore, hon, hoff⟩ := pass_guard s now j l m hl hm
+    cases hg : s.cfg.stallDeselect
+    · obtain ⟨a1, a2, a3, a4, a5, a6, a7⟩ := hoff hg
+      exact .inr (.inr ⟨hne, hreg, hg, hcore, a1, a2, a3, a4, a5, a6, a7⟩)
+    · obtain ⟨a1, a2, a3, a4, a5, a6, a7⟩ := hon hg
+      exact .inr (.inl ⟨hne, hreg, hg, hcore, a1, a2, a3, a4, a5, a6, a7⟩)
+
+/-- **Engage only if, at shell level.**  If ANY event takes link `j` from un-latched to latched, then
+the event is a `client` datagram (non-empty, registration completed — so `select_connection_idx` ran)
+with the guard on, and at that moment the link was connected, HAD delivery proof, the proof was at least
+one effective window `clamp(4 × smoothed RTT, 1000, ceiling)` old (`effStale`, see
+`C13_effective_window`; `ceiling` = the configured `stall_stale_ceiling_ms`), and it held at least the
+configured in-flight backlog or is held by the silence pull; the latch is stamped with the event's
+clock, exactly one gate event is counted and no recovery run is recorded.  No other event — no uplink
+datagram, flush, housekeeping tick, configuration change — can latch a link. -/
+theorem C13_engage_only_if_sys (s : Sys.Sys F) (e : Sys.Ev) (j : Nat) (l l' : FLink F)
+    (hl : s.links[j]? = some l) (hl' : (Sys.step s e).1.links[j]? = some l')
+    (h0 : l.latchedSince = 0) (h1 : l'.latchedSince ≠ 0) :
+    ∃ now pkt, e = .client now pkt ∧ pkt ≠ [] ∧ s.reg.hasConnected = true ∧ s.cfg.stallDeselect = true ∧
+      l.core.connected = true ∧ l.core.proofMs ≠ 0 ∧
+      now - l.core.proofMs ≥ effStale l.toSLink s.cfg.stallCeilingMs ∧
+      (l.core.inFlight ≥ s.cfg.stallMinInFlight ∨ l'.silencePulled = true) ∧
+      l'.latchedSince = now ∧ l'.gateEvents = l.gateEvents + 1 ∧ l'.recoverySince = 0 := by
+  by_cases hc : ∃ now pkt, e = .client now pkt
+  · obtain ⟨now, pkt, rfl⟩ := hc
+    obtain ⟨m, hp, hk⟩ := C13_latch_fields_client_sys s now pkt j l l' hl hl'
+    rcases hk with ⟨⟨k1, k2, k3, k4, k5, k6, k7⟩, -⟩ | ⟨⟨t1, -⟩, -⟩
+    · rw [k1] at h1
+      rcases hp with ⟨-, rfl⟩ | ⟨hne, hreg, hon, -, a1, a2, a3, a4, a5, a6, a7⟩ | ⟨-, -, -, -, a1, -⟩
+      · exact absurd h0 h1
+      · rw [a1] at h1
+        obtain ⟨b1, b2, b3, b4, b5, b6, b7⟩ :=
+          C13_engage_only_if_pass l.toSLink now s.cfg.stallMinInFlight s.cfg.stallCeilingMs h0 h1
+        exact ⟨now, pkt, rfl, hne, hreg, hon, b1, b2, b3, b4.imp id (fun h => by rw [k3, a3]; exact h),
+          by rw [k1, a1]; exact b5, by rw [k6, a5]; exact b6, by rw [k2, a2]; exact b7⟩
+      · exact absurd a1 h1
+    · exact absurd t1 h1
+  · have hne : ∀ now pkt, e ≠ .client now pkt := fun now pkt h => hc ⟨now, pkt, h⟩
+    rcases C13_latch_fields_frame_sys s e hne j l l' hl hl' with ⟨⟨k1, -⟩, -⟩ | ⟨⟨t1, -⟩, -⟩
+    · rw [k1] at h1; exact absurd h0 h1
+    · exact absurd t1 h1
+
+/-- **Only a tear-down or a selection pass un-latches, at shell level.**  If ANY event takes link `j`
+from latched to un-latched, then either the link was torn down in that event (`TornDown`: failed send,
+REG_ERR, reconnect attempt), or the event is a `client` datagram whose selection pass ran with the guard
+OFF, or with the guard ON and exactly under the release condition of `C13_release_iff`: proof fresh at
+that clock and the recovery run (starting now if none is recorded) at least twice the effective window
+long. -/
+theorem C13_unlatch_only_by_sys (s : Sys.Sys F) (e : Sys.Ev) (j : Nat) (l l' : FLink F)
+    (hl : s.links[j]? = some l) (hl' : (Sys.step s e).1.links[j]? = some l')
+    (h0 : l.latchedSince ≠ 0) (h1 : l'.latchedSince = 0) :
+    TornDown l' ∨
+    ∃ now pkt, e = .client now pkt ∧ pkt ≠ [] ∧ s.reg.hasConnected = true ∧
+      (s.cfg.stallDeselect = false ∨
+       (s.cfg.stallDeselect = true ∧
+        (l.core.proofMs ≠ 0 ∧ now - l.core.proofMs < effStale l.toSLink s.cfg.stallCeilingMs) ∧
+        now - (if l.recoverySince = 0 then now else l.recoverySince) ≥
+          2 * effStale l.toSLink s.cfg.stallCeilingMs)) := by
+  by_cases hc : ∃ now pkt, e = .client now pkt
+  · obtain ⟨now, pkt, rfl⟩ := hc
+    obtain ⟨m, hp, hk⟩ := C13_latch_fields_client_sys s now pkt j l l' hl hl'
+    rcases hk with ⟨⟨k1, -⟩, -⟩ | ⟨t, -⟩
+    · rw [k1] at h1
+      rcases hp with ⟨-, rfl⟩ | ⟨hne, hreg, hon, -, a1, -⟩ | ⟨hne, hreg, hoff, -⟩
+      · exact absurd h1 h0
+      · rw [a1] at h1
+        exact .inr ⟨now, pkt, rfl, hne, hreg, .inr ⟨hon,
+          (C13_release_iff l.toSLink now s.cfg.stallMinInFlight s.cfg.stallCeilingMs h0).1 h1⟩⟩
+      · exact .inr ⟨now, pkt, rfl, hne, hreg, .inl hoff⟩
+    · exact .inl t
+  · have hne : ∀ now pkt, e ≠ .client now pkt := fun now pkt h => hc ⟨now, pkt, h⟩
+    rcases C13_latch_fields_frame_sys s e hne j l l' hl hl' with ⟨⟨k1, -⟩, -⟩ | ⟨t, -⟩
+    · rw [k1] at h1; exact absurd h1 h0
+    · exact .inl t
+
+/-- **Exactly when a `client` event releases** (registered session, guard on, link latched): iff the
+release condition of `C13_release_iff` holds for the link's own fields at the event's clock and the
+configured ceiling — or the link is torn down in the same event (a failed send on it). -/
+theorem C13_release_iff_sys (s : Sys.Sys F) (now : Nat) (pkt : Sys.Bytes) (j : Nat) (l l' : FLink F)
+    (hl : s.links[j]? = some l) (hl' : (Sys.step s (.client now pkt)).1.links[j]? = some l')
+    (hne : pkt ≠ []) (hreg : s.reg.hasConnected = true) (hon : s.cfg.stallDeselect = true)
+    (hlat : l.latchedSince ≠ 0) :
+    l'.latchedSince = 0 ↔
+      ((l.core.proofMs ≠ 0 ∧ now - l.core.proofMs < effStale l.toSLink s.cfg.stallCeilingMs) ∧
+        now - (if l.recoverySince = 0 then now else l.recoverySince) ≥
+          2 * effStale l.toSLink s.cfg.stallCeilingMs) ∨ TornDown l' := by
+  constructor
+  · intro h1
+    rcases C13_unlatch_only_by_sys s _ j l l' hl hl' hlat h1 with t | ⟨now', pkt', he, -, -, h⟩
+    · exact .inr t
+    · cases he
+      rcases h with h | ⟨-, h⟩
+      · rw [hon] at h; cases h
+      · exact .inl h
+  · rintro (h | t)
+    · obtain ⟨m, hp, hk⟩ := C13_latch_fields_client_sys s now pkt j l l' hl hl'
+      have hm : m.latchedSince = 0 := by
+        rcases hp with ⟨h' | h', -⟩ | ⟨-, -, -, -, a1, -⟩ | ⟨-, -, hoff, -⟩
+        · exact absurd h' hne
+        · rw [hreg] at h'; cases h'
+        · rw [a1]
+          exact (C13_release_iff l.toSLink now s.cfg.stallMinInFlight s.cfg.stallCeilingMs hlat).2 h
+        · rw [hon] at hoff; cases hoff
+      rcases hk with ⟨⟨k1, -⟩, -⟩ | ⟨⟨t1, -⟩, -⟩
+      · rw [k1]; exact hm
+      · exact t1
+    · exact t.1
+
+/-- **The silence pull releases only when the link is heard again or disconnects, at shell level.**  If
+ANY event clears a held pull, then the link was torn down in that event, or the event is a `client`
+datagram whose pass ran with the guard off, or with the guard on and the link's `last_received` differs
+from the heard-mark recorded when the pull engaged, or the link is disconnected. -/
+theorem C13_pull_release_only_if_heard_sys (s : Sys.Sys F) (e : Sys.Ev) (j : Nat) (l l' : FLink F)
+    (hl : s.links[j]? = some l) (hl' : (Sys.step s e).1.links[j]? = some l')
+    (h0 : l.silencePulled = true) (h1 : l'.silencePulled = false) :
+    TornDown l' ∨
+    ∃ now pkt, e = .client now pkt ∧ pkt ≠ [] ∧ s.reg.hasConnected = true ∧
+      (s.cfg.stallDeselect = false ∨
+       (s.cfg.stallDeselect = true ∧ (l.core.lastReceived ≠ l.pullMark ∨ l.core.connected = false))) := by
+  by_cases hc : ∃ now pkt, e = .client now pkt
+  · obtain ⟨now, pkt, rfl⟩ := hc
+    obtain ⟨m, hp, hk⟩ := C13_latch_fields_client_sys s now pkt j l l' hl hl'
+    rcases hk with ⟨⟨-, -, k3, -⟩, -⟩ | ⟨t, -⟩
+    · rw [k3] at h1
+      rcases hp with ⟨-, rfl⟩ | ⟨hne, hreg, hon, -, -, -, a3, -⟩ | ⟨hne, hreg, hoff, -⟩
+      · rw [h0] at h1; cases h1
+      · rw [a3, sel_pulled] at h1
+        exact .inr ⟨now, pkt, rfl, hne, hreg, .inr ⟨hon,
+          C13_pull_release_only_if_heard l.toSLink now s.cfg.stallMinInFlight s.cfg.stallCeilingMs h0 h1⟩⟩
+      · exact .inr ⟨now, pkt, rfl, hne, hreg, .inl hoff⟩
+    · exact .inl t
+  · have hne : ∀ now pkt, e ≠ .client now pkt := fun now pkt h => hc ⟨now, pkt, h⟩
+    rcases C13_latch_fields_frame_sys s e hne j l l' hl hl' with ⟨⟨-, -, k3, -⟩, -⟩ | ⟨t, -⟩
+    · rw [k3, h0] at h1; cases h1
+    · exact .inl t
+
+/-! ### the proof stamp and "never blind" along runs -/
+
+/-- **Who writes the delivery-proof stamp, over ALL events.**  If any event changes
+`last_ack_or_rtt_sample_ms` of link `j`, then either the link was torn down in that event (stamp 0), or
+the event is an uplink datagram and one of the three causes of `C09_proof_stamp` holds: an SRTLA ACK
+(type 0x9100) naming a number this link's log held (stamp = the clock), the echo (type 0x9000) on this
+link's own socket of an outstanding keepalive probe with age in `(0, 10000]` ms (stamp = the clock), or a
+REG_ERR (0x9210) on this link (stamp 0).  Client datagrams, flushes and housekeeping ticks never stamp
+proof. -/
+theorem C13_proof_stamp_sys (s : Sys.Sys F) (e : Sys.Ev) (j : Nat) (l l' : FLink F)
+    (hl : s.links[j]? = some l) (hl' : (Sys.step s e).1.links[j]? = some l')
+    (hchg : l'.core.proofMs ≠ l.core.proofMs) :
+    TornDown l' ∨
+    ∃ now connId data, e = .uplink now connId data ∧
+      ((Codec.getPacketTypeS data = some 0x9100 ∧ l'.core.proofMs = now ∧
+          ∃ nums, Codec.parseSrtlaAck data = .ok nums ∧ ∃ a ∈ nums, Conn.toI32 a ∈ l.core.keys) ∨
+       (Codec.getPacketTypeS data = some 0x9000 ∧
+          s.links.findIdx? (·.core.connId == connId) = some j ∧ l.rtt.waiting = true ∧
+          l'.core.proofMs = now ∧
+          ∃ ts, Codec.extractKeepaliveTimestamp data = .ok (some ts) ∧ 0 < now - ts ∧ now - ts ≤ 10000) ∨
+       (Codec.getPacketTypeS data = some 0x9210 ∧
+          s.links.findIdx? (·.core.connId == connId) = some j ∧ l'.core.proofMs = 0)) := by
+  by_cases hu : ∃ now cid data, e = .uplink now cid data
+  · obtain ⟨now, cid, data, rfl⟩ := hu
+    exact .inr ⟨now, cid, data, rfl, C09.C09_proof_stamp s cid data now j l l' hl hl' hchg⟩
+  · by_cases hc : ∃ now pkt, e = .client now pkt
+    · obtain ⟨now, pkt, rfl⟩ := hc
+      obtain ⟨m, hp, hk⟩ := C13_latch_fields_client_sys s now pkt j l l' hl hl'
+      rcases hk with ⟨-, k⟩ | ⟨t, -⟩
+      · have : m.core.proofMs = l.core.proofMs := by
+          rcases hp with ⟨-, rfl⟩ | ⟨-, -, -, hcore, -⟩ | ⟨-, -, -, hcore, -⟩
+          · rfl
+          · rw [hcore]
+          · rw [hcore]
+        exact absurd (k.trans this) hchg
+      · exact .inl t
+    · have hne : ∀ now pkt, e ≠ .client now pkt := fun now pkt h => hc ⟨now, pkt, h⟩
+      have hu' : ∀ now cid data, e ≠ .uplink now cid data := fun now cid data h => hu ⟨now, cid, data, h⟩
+      rcases keepOrTorn_other s e hne hu' j l l' hl hl' with h | h
+      · exact absurd h.proof hchg
+      · exact .inl (tornDown_of_torn h).1
+
+/-- **Never blind, one event of the shell.**  "No delivery proof ⇒ not latched" is preserved by every
+event, provided an `uplink` event does not read the clock value 0 (the proof stamp uses `0` as its
+"never" sentinel: an SRTLA ACK processed at clock 0 would stamp "never" on a link that HAS proof —
+`utils::now_ms()` is epoch-based, so 0 does not occur; see the `example` below for what happens at 0). -/
+theorem C13_never_proof_never_latched_step (s : Sys.Sys F) (e : Sys.Ev)
+    (hclk : ∀ now cid data, e = .uplink now cid data → 0 < now)
+    (h : ∀ l ∈ s.links, l.core.proofMs = 0 → l.latchedSince = 0) :
+    ∀ l' ∈ (Sys.step s e).1.links, l'.core.proofMs = 0 → l'.latchedSince = 0 := by
+  intro l' hmem hp
+  obtain ⟨j, hj, hget⟩ := List.getElem_of_mem hmem
+  have hl' : (Sys.step s e).1.links[j]? = some l' := by rw [← hget]; exact List.getElem?_eq_getElem hj
+  have hlen : (Sys.step s e).1.links.length = s.links.length := (Hk.step_link s e).2.1
+  have hj' : j < s.links.length := by omega
+  have hl : s.links[j]? = some s.links[j] := List.getElem?_eq_getElem hj'
+  have hinv := h s.links[j] (List.getElem_mem hj')
+  generalize s.links[j] = l at hl hinv
+  by_cases hc : ∃ now pkt, e = .client now pkt
+  · obtain ⟨now, pkt, rfl⟩ := hc
+    obtain ⟨m, hpass, hk⟩ := C13_latch_fields_client_sys s now pkt j l l' hl hl'
+    rcases hk with ⟨⟨k1, -⟩, kp⟩ | ⟨⟨t1, -⟩, -⟩
+    · rw [k1]
+      rw [kp] at hp
+      rcases hpass with ⟨-, rfl⟩ | ⟨-, -, -, hcore, a1, -⟩ | ⟨-, -, -, -, a1, -⟩
+      · exact hinv hp
+      · rw [a1]
+        rw [hcore] at hp
+        exact (C13_never_proved_never_latched l.toSLink now s.cfg.stallMinInFlight s.cfg.stallCeilingMs
+          hp (hinv hp)).2
+      · exact a1
+    · exact t1
+  · have hne : ∀ now pkt, e ≠ .client now pkt := fun now pkt h => hc ⟨now, pkt, h⟩
+    by_cases hu : ∃ now cid data, e = .uplink now cid data
+    · obtain ⟨now, cid, data, rfl⟩ := hu
+      have hnow := hclk now cid data rfl
+      cases uplink_guard s cid data now j l l' hl hl' with
+      | keep hk => rw [hk.latched]; rw [hk.proof] at hp; exact hinv hp
+      | sack _ _ hpn _ => rw [hpn] at hp; omega
+      | echo _ _ hpn _ => rw [hpn] at hp; omega
+      | reg3 hs hpp _ => rw [hs.latched]; rw [hpp] at hp; exact hinv hp
+      | torn ht => exact ht.latched
+    · have hu' : ∀ now cid data, e ≠ .uplink now cid data := fun now cid data h => hu ⟨now, cid, data, h⟩
+      rcases keepOrTorn_other s e hne hu' j l l' hl hl' with hk | ht
+      · rw [hk.latched]; rw [hk.proof] at hp; exact hinv hp
+      · exact ht.latched
+
+/-! ### run forms -/
+
+/-- The state after `pre ++ [e]` is one `Sys.step` from the state after `pre`. -/
+theorem run_snoc_fst (s : Sys.Sys F) (pre : List Sys.Ev) (e : Sys.Ev) :
+    (Sys.run s (pre ++ [e])).1 = (Sys.step (Sys.run s pre).1 e).1 := by
+  induction pre generalizing s with
+  | nil => rfl
+  | cons a pre ih => exact ih _
+
+/-- **Never blind, along every run of the shell.**  From any state in which "no delivery proof ⇒ not
+latched" holds of every link — in particular from the initial state, see `_from_init` — it holds of
+every link after EVERY list of events (client datagrams, uplink datagrams of every kind, flush and
+housekeeping ticks, reconnects, tear-downs, configuration changes incl. guard on/off toggles and
+threshold changes, fault injections), whatever the clock does, as long as no uplink datagram is
+processed at the clock value 0: a link whose proof stamp is 0 — it has produced no earned SRTLA ACK and
+no answered keepalive since it was created or last reset (`C13_proof_stamp_sys`) — is never latched. -/
+theorem C13_never_proof_never_latched_run (s : Sys.Sys F) (evs : List Sys.Ev)
+    (hclk : ∀ e ∈ evs, ∀ now cid data, e = .uplink now cid data → 0 < now)
+    (h : ∀ l ∈ s.links, l.core.proofMs = 0 → l.latchedSince = 0) :
+    ∀ l ∈ (Sys.run s evs).1.links, l.core.proofMs = 0 → l.latchedSince = 0 := by
+  induction evs generalizing s with
+  | nil => exact h
+  | cons e evs ih =>
+    exact ih _ (fun x hx => hclk x (List.mem_cons_of_mem _ hx))
+      (C13_never_proof_never_latched_step s e (hclk e List.mem_cons_self) h)
+
+/-- From the driver's initial state (`n` fresh links, `SrtlaConnection::new_registering`), any
+registration state, configuration and tracker. -/
+theorem C13_never_proof_never_latched_from_init (n t0 : Nat) (reg : Reg.Reg) (cfg : Cfg) (evs : List Sys.Ev)
+    (hclk : ∀ e ∈ evs, ∀ now cid data, e = .uplink now cid data → 0 < now) :
+    ∀ l ∈ (Sys.run ({ links := (List.range n).map fun i => FLink.newRegistering (i + 1) t0, reg := reg,
+                      cfg := cfg } : Sys.Sys F) evs).1.links,
+      l.core.proofMs = 0 → l.latchedSince = 0 := by
+  apply C13_never_proof_never_latched_run _ evs hclk
+  intro l hl _
+  obtain ⟨i, -, rfl⟩ := List.mem_map.1 hl
+  rfl
+
+/-- **Frame, along runs**: at every position of every run, an event that is not a `client` event leaves
+the guard's seven fields of every link unchanged or tears the link down. -/
+theorem C13_latch_fields_frame_run (s : Sys.Sys F) (pre : List Sys.Ev) (e : Sys.Ev)
+    (hne : ∀ now pkt, e ≠ .client now pkt) (j : Nat) (l l' : FLink F)
+    (hl : (Sys.run s pre).1.links[j]? = some l) (hl' : (Sys.run s (pre ++ [e])).1.links[j]? = some l') :
+    (SameGuard l l' ∧ (l'.core.proofMs = l.core.proofMs ∨ l'.core.proofMs = evClock e)) ∨
+    (TornDown l' ∧ l'.gateEvents = l.gateEvents ∧ l'.silencePulls = l.silencePulls) := by
+  rw [run_snoc_fst] at hl'
+  exact C13_latch_fields_frame_sys _ e hne j l l' hl hl'
+
+/-- **Engage only if, along runs**: whenever, at any position of any run, a link goes from un-latched
+to latched, the event is a `client` datagram routed by the scheduler with the guard on, and the link —
+in the state the run had reached — had delivery proof at least one effective window old and a backlog
+of at least the threshold (or is held by the silence pull). -/
+theorem C13_engage_only_if_run (s : Sys.Sys F) (pre : List Sys.Ev) (e : Sys.Ev) (j : Nat) (l l' : FLink F)
+    (hl : (Sys.run s pre).1.links[j]? = some l) (hl' : (Sys.run s (pre ++ [e])).1.links[j]? = some l')
+    (h0 : l.latchedSince = 0) (h1 : l'.latchedSince ≠ 0) :
+    ∃ now pkt, e = .client now pkt ∧ pkt ≠ [] ∧ (Sys.run s pre).1.reg.hasConnected = true ∧
+      (Sys.run s pre).1.cfg.stallDeselect = true ∧
+      l.core.connected = true ∧ l.core.proofMs ≠ 0 ∧
+      now - l.core.proofMs ≥ effStale l.toSLink (Sys.run s pre).1.cfg.stallCeilingMs ∧
+      (l.core.inFlight ≥ (Sys.run s pre).1.cfg.stallMinInFlight ∨ l'.silencePulled = true) ∧
+      l'.latchedSince = now ∧ l'.gateEvents = l.gateEvents + 1 ∧ l'.recoverySince = 0 := by
+  rw [run_snoc_fst] at hl'
+  exact C13_engage_only_if_sys _ e j l l' hl hl' h0 h1
+
+/-- **Un-latch only by, along runs.** -/
+theorem C13_unlatch_only_by_run (s : Sys.Sys F) (pre : List Sys.Ev) (e : Sys.Ev) (j : Nat) (l l' : FLink F)
+    (hl : (Sys.run s pre).1.links[j]? = some l) (hl' : (Sys.run s (pre ++ [e])).1.links[j]? = some l')
+    (h0 : l.latchedSince ≠ 0) (h1 : l'.latchedSince = 0) :
+    TornDown l' ∨
+    ∃ now pkt, e = .client now pkt ∧ pkt ≠ [] ∧ (Sys.run s pre).1.reg.hasConnected = true ∧
+      ((Sys.run s pre).1.cfg.stallDeselect = false ∨
+       ((Sys.run s pre).1.cfg.stallDeselect = true ∧
+        (l.core.proofMs ≠ 0 ∧ now - l.core.proofMs < effStale l.toSLink (Sys.run s pre).1.cfg.stallCeilingMs) ∧
+        now - (if l.recoverySince = 0 then now else l.recoverySince) ≥
+          2 * effStale l.toSLink (Sys.run s pre).1.cfg.stallCeilingMs)) := by
+  rw [run_snoc_fst] at hl'
+  exact C13_unlatch_only_by_sys _ e j l l' hl hl' h0 h1
+
+/-! ### a single ACK never releases, along runs of the shell -/
+
+/-- One event in the situation of `C13_single_ack_never_releases_run`: link `j` is latched, its proof
+stamp is `t0 ≠ 0` and its recovery run (if any) did not start before `t0`.  If the event leaves the proof
+stamp at `t0` (no further proof, no tear-down), and — in case it is a client datagram — reads a clock
+`≥ t0` and does not run the pass with the guard off, the link is still latched afterwards and the recovery
+run still did not start before `t0`. -/
+theorem single_ack_step (s : Sys.Sys F) (e : Sys.Ev) (j : Nat) (l l' : FLink F) (t0 : Nat)
+    (hl : s.links[j]? = some l) (hl' : (Sys.step s e).1.links[j]? = some l')
+    (ht0 : t0 ≠ 0) (hlat : l.latchedSince ≠ 0) (hp : l.core.proofMs = t0)
+    (hr : l.recoverySince = 0 ∨ t0 ≤ l.recoverySince)
+    (hp' : l'.core.proofMs = t0)
+    (hcl : ∀ now pkt, e = .client now pkt →
+      t0 ≤ now ∧ (pkt ≠ [] → s.reg.hasConnected = true → s.cfg.stallDeselect = true)) :
+    l'.latchedSince ≠ 0 ∧ (l'.recoverySince = 0 ∨ t0 ≤ l'.recoverySince) := by
+  by_cases hc : ∃ now pkt, e = .client now pkt
+  · obtain ⟨now, pkt, rfl⟩ := hc
+    obtain ⟨hnow, hgon⟩ := hcl now pkt rfl
+    obtain ⟨m, hpass, hk⟩ := C13_latch_fields_client_sys s now pkt j l l' hl hl'
+    rcases hk with ⟨⟨k1, k2, -⟩, -⟩ | ⟨⟨-, -, -, -, -, t6, -⟩, -⟩
+    · rw [k1, k2]
+      rcases hpass with ⟨-, rfl⟩ | ⟨-, -, -, -, a1, a2, -⟩ | ⟨hne, hreg, hoff, -⟩
+      · exact ⟨hlat, hr⟩
+      · rw [a1, a2]
+        have := C13_single_ack_never_releases_run l.toSLink t0 [.sel now s.cfg.stallMinInFlight s.cfg.stallCeilingMs]
+          hlat hp hr (by
+            intro st hst
+            simp only [List.mem_singleton] at hst
+            subst hst
+            exact hnow)
+        exact ⟨this.1, this.2.2⟩
+      · rw [hgon hne hreg] at hoff; cases hoff
+    · rw [t6] at hp'; exact absurd hp'.symm ht0
+  · have hne : ∀ now pkt, e ≠ .client now pkt := fun now pkt h => hc ⟨now, pkt, h⟩
+    rcases C13_latch_fields_frame_sys s e hne j l l' hl hl' with ⟨⟨k1, k2, -⟩, -⟩ | ⟨⟨-, -, -, -, -, t6, -⟩, -⟩
+    · rw [k1, k2]; exact ⟨hlat, hr⟩
+    · rw [t6] at hp'; exact absurd hp'.symm ht0
+
+/-- What `QuietFor` asks of a client datagram: its clock is `≥ t0` (monotone clock) and, if it is routed by
+the scheduler (non-empty, registration completed), the guard is on.  Nothing is asked of other events. -/
+def ClientOk (t0 : Nat) (s : Sys.Sys F) : Sys.Ev → Prop
+  | .client now pkt => t0 ≤ now ∧ (pkt ≠ [] → s.reg.hasConnected = true → s.cfg.stallDeselect = true)
+  | _ => True
+
+instance decClientOk (t0 : Nat) (s : Sys.Sys F) (e : Sys.Ev) : Decidable (ClientOk t0 s e) := by
+  cases e with
+  | client now pkt =>
+    exact inferInstanceAs
+      (Decidable (t0 ≤ now ∧ (pkt ≠ [] → s.reg.hasConnected = true → s.cfg.stallDeselect = true)))
+  | _ => exact isTrue trivial
+
+/-- "Nothing but time passes for link `j`": along the run, after every event the proof stamp of link `j`
+is still `t0` (no further earned SRTLA ACK / keepalive echo, no tear-down), every client datagram reads a
+clock `≥ t0` and no routed client datagram finds the guard switched off (`ClientOk`). -/
+def QuietFor (t0 j : Nat) : Sys.Sys F → List Sys.Ev → Prop
+  | _, [] => True
+  | s, e :: evs =>
+    (((Sys.step s e).1.links[j]?.map fun l' => l'.core.proofMs) = some t0 ∧ ClientOk t0 s e) ∧
+    QuietFor t0 j (Sys.step s e).1 evs
+
+instance decQuietFor (t0 j : Nat) : (s : Sys.Sys F) → (evs : List Sys.Ev) → Decidable (QuietFor t0 j s evs)
+  | _, [] => isTrue trivial
+  | s, e :: evs =>
+    have := decQuietFor t0 j (Sys.step s e).1 evs
+    inferInstanceAs (Decidable
+      ((((Sys.step s e).1.links[j]?.map fun l' => l'.core.proofMs) = some t0 ∧ ClientOk t0 s e) ∧
+        QuietFor t0 j (Sys.step s e).1 evs))
+
+/-- **A single ACK never releases, along runs of the shell.**  Link `j` of the shell is latched, its one
+delivery proof is stamped `t0` and no recovery run started before `t0` (in particular
+`recoverySince = 0`: the pass before the ACK saw stale proof).  Then through ANY run of the shell in which
+nothing but time passes for that link (`QuietFor`: no further proof, no tear-down, client clocks `≥ t0`,
+guard not switched off) — any number of client datagrams and hence scheduling passes at any spacing, any
+uplink datagrams that bring it no proof, flush / housekeeping ticks, configuration changes of thresholds
+and ceiling, traffic and events on the other links — the link stays latched. -/
+theorem C13_single_ack_never_releases_sys_run (s : Sys.Sys F) (evs : List Sys.Ev) (j t0 : Nat) (l : FLink F)
+    (hl : s.links[j]? = some l) (ht0 : t0 ≠ 0) (hlat : l.latchedSince ≠ 0) (hp : l.core.proofMs = t0)
+    (hr : l.recoverySince = 0 ∨ t0 ≤ l.recoverySince) (hq : QuietFor t0 j s evs) :
+    ∃ lf, (Sys.run s evs).1.links[j]? = some lf ∧ lf.latchedSince ≠ 0 ∧ lf.core.proofMs = t0 := by
+  induction evs generalizing s l with
+  | nil => exact ⟨l, hl, hlat, hp⟩
+  | cons e evs ih =>
+    obtain ⟨⟨q1, q2⟩, q3⟩ := hq
+    have hlen : (Sys.step s e).1.links.length = s.links.length := (Hk.step_link s e).2.1
+    have hj : j < (Sys.step s e).1.links.length := by
+      rw [hlen]; exact (List.getElem?_eq_some_iff.1 hl).1
+    have hl' : (Sys.step s e).1.links[j]? = some (Sys.step s e).1.links[j] := List.getElem?_eq_getElem hj
+    have hp' : (Sys.step s e).1.links[j].core.proofMs = t0 := by
+      rw [hl'] at q1
+      exact Option.some.inj q1
+    have q2' : ∀ now pkt, e = .client now pkt →
+        t0 ≤ now ∧ (pkt ≠ [] → s.reg.hasConnected = true → s.cfg.stallDeselect = true) := by
+      rintro now pkt rfl
+      exact q2
+    obtain ⟨a, b⟩ := single_ack_step s e j l _ t0 hl hl' ht0 hlat hp hr hp' q2'
+    exact ih (Sys.step s e).1 _ hl' a hp' b q3
+
+/-! ### non-vacuity: a concrete shell state and runs (`fixScalar`: the kernel evaluates the pass) -/
+
+/-- Two live links at `now ≈ 5000`, registered session, guard on with threshold 2 and ceiling 1000 ms (no
+RTT baseline ⇒ effective window = 1000).  Link 0 (conn id 1) holds sequence numbers 5 and 7 and its last
+delivery proof is from 2000; link 1 (conn id 2) is idle and has never produced proof. -/
+def exShell : Sys.Sys Int :=
+  { links :=
+      [ { (@FLink.newRegistering Int fixScalar 1 0) with
+          core := { connId := 1, connected := true, phase := .live, inFlight := 2,
+                    log := [(5, 100), (7, 120)], highestAcked := 4, lastReceived := some 4990, proofMs := 2000 },
+          established := 1 },
+        { (@FLink.newRegistering Int fixScalar 2 0) with
+          core := { connId := 2, connected := true, phase := .live, lastReceived := some 4990 },
+          established := 1 } ],
+    reg := { (Srtla.Reg.Reg.new [] []) with hasConnected := true },
+    cfg := { stallMinInFlight := 2, stallCeilingMs := 1000 } }
+
+/-- An SRT data packet (sequence number 9), SRTLA ACKs of 5 and of 7, REG_ERR. -/
+def exData9 : List UInt8 := [0, 0, 0, 9, 0, 0, 0, 0, 1, 2, 3, 4, 9, 9, 9, 9, 42]
+def exSack5 : List UInt8 := [0x91, 0x00, 0, 0, 0, 0, 0, 5]
+def exSack7 : List UInt8 := [0x91, 0x00, 0, 0, 0, 0, 0, 7]
+def exRegErr : List UInt8 := [0x92, 0x10]
+
+/-- Hypotheses of `C13_engage_only_if_sys` met: the client datagram at 5000 latches link 0 (proof 3000 ms
+old ≥ 1000, backlog 2 ≥ 2) — stamped 5000, one gate event, gated (link 1 is healthy) — and not link 1,
+which has no proof (`C13_never_proof_never_latched_step`). -/
+example :
+    (exShell.links.map fun l => (l.latchedSince, l.core.proofMs)) = [(0, 2000), (0, 0)] ∧
+    ((@Sys.step Int fixScalar exShell (.client 5000 exData9)).1.links.map fun l =>
+      (l.latchedSince, l.gateEvents, l.stallGated, l.recoverySince, l.core.proofMs)) =
+      [(5000, 1, true, 0, 2000), (0, 0, false, 0, 0)] := by
+  decide +kernel
+
+/-- A whole cycle through the shell: latched at 5000; the SRTLA ACK of 5 at 5500 stamps proof (an `uplink`
+event: latch fields untouched, `C13_latch_fields_frame_sys`); the pass at 6000 starts the recovery run;
+the ACK of 7 at 7500 keeps proof fresh; the pass at 7999 does not release (dwell 2 × 1000 from 6000), the
+pass at 8000 does (`C13_release_iff_sys`, `C13_unlatch_only_by_sys`). -/
+example :
+    let evs : List Sys.Ev := [.client 5000 exData9, .uplink 5500 1 exSack5, .client 6000 exData9,
+      .uplink 7500 1 exSack7, .client 7999 exData9]
+    ((@Sys.run Int fixScalar exShell evs).1.links.map fun l =>
+      (l.latchedSince, l.recoverySince, l.core.proofMs)) = [(5000, 6000, 7500), (0, 0, 0)] ∧
+    ((@Sys.run Int fixScalar exShell (evs ++ [.client 8000 exData9])).1.links.map fun l =>
+      (l.latchedSince, l.recoverySince, l.core.proofMs)) = [(0, 0, 7500), (0, 0, 0)] := by
+  decide +kernel
+
+/-- A tear-down un-latches (`TornDown`): REG_ERR on the latched link; and switching the guard off does
+(the `setCfg` event itself changes nothing — `C13_latch_fields_frame_sys` — the next pass clears). -/
+example :
+    ((@Sys.run Int fixScalar exShell [.client 5000 exData9, .uplink 5200 1 exRegErr]).1.links.map fun l =>
+      (l.latchedSince, l.stallGated, l.gateEvents, l.core.proofMs, l.core.connected)) =
+      [(0, false, 1, 0, false), (0, false, 0, 0, true)] ∧
+    ((@Sys.run Int fixScalar exShell [.client 5000 exData9,
+        .setCfg { stallDeselect := false }]).1.links.map fun l => (l.latchedSince, l.stallGated)) =
+      [(5000, true), (0, false)] ∧
+    ((@Sys.run Int fixScalar exShell [.client 5000 exData9, .setCfg { stallDeselect := false },
+        .client 5001 exData9]).1.links.map fun l => (l.latchedSince, l.stallGated)) =
+      [(0, false), (0, false)] := by
+  decide +kernel
+
+/-- `C13_never_proof_never_latched_run` applies to `exShell` (hypothesis on the start state met: link 1
+has no proof and is not latched; link 0 has proof) … -/
+example : ∀ l ∈ exShell.links, l.core.proofMs = 0 → l.latchedSince = 0 := by
+  decide +kernel
+
+/-- … and why the clock hypothesis is there: an SRTLA ACK processed at clock value 0 stamps the sentinel
+"never" on a link that has proof and is latched.  (A clock running backwards to 0; `utils::now_ms()`
+never returns 0.  Nothing is un-latched or latched wrongly by this — the link simply looks as if it had
+no proof, so `is_stalled` is false for it from then on and the latch waits for fresh proof.) -/
+example :
+    ((@Sys.run Int fixScalar exShell [.client 5000 exData9, .uplink 0 1 exSack5]).1.links.map fun l =>
+      (l.latchedSince, l.core.proofMs)) = [(5000, 0), (0, 0)] := by
+  decide +kernel
+
+/-- `C13_single_ack_never_releases_sys_run` on the example: latched at 5000, one SRTLA ACK at 5500 (proof
+stamp 5500, the pass before it saw stale proof: `recoverySince = 0`); then passes at 6000, 6400, 9000, a
+housekeeping tick and a flush in between, traffic going to link 1: `QuietFor 5500 0` holds of that run and
+link 0 is still latched at the end (had the ACK of 7 arrived at 7500 it would have been released at 8000,
+see the cycle above). -/
+example :
+    let s1 := (@Sys.run Int fixScalar exShell [.client 5000 exData9, .uplink 5500 1 exSack5]).1
+    let evs : List Sys.Ev := [.client 6000 exData9, .hk 6100, .client 6400 exData9, .flush 6420, .client 9000 exData9]
+    (s1.links.map fun l => (l.latchedSince, l.recoverySince, l.core.proofMs)) = [(5000, 0, 5500), (0, 0, 0)] ∧
+    @QuietFor Int fixScalar 5500 0 s1 evs ∧
+    ((@Sys.run Int fixScalar s1 evs).1.links.map fun l => (l.latchedSince, l.core.proofMs)) =
+      [(5000, 5500), (0, 0)] := by
+  decide +kernel
+
+end shellRuns
+
+/-! ## 13. A shell run, seen from one link, is a history of the alphabet
+
+§11 tied the alphabet to the link model operation by operation and said that "the selection-view
+projection of a shell run is a `Step` history".  Here that is a theorem with an EXPLICIT history
+(`SelShell.runSteps s evs j`, Lemmas/SelShellHistory.lean): per event, a routed client datagram
+contributes `env ; sel now thr ceil | selOff ; env` (timeout stamp; the guard pass with the event's clock
+and the configuration of that moment; gate flag and quality cache) followed by the steps of "everything
+else"; everything else contributes one `env` step if the six guard-written fields survived and the proof
+stamp was kept or set non-zero, and `reset ; env` otherwise (a tear-down).  Every trace theorem of §2-10
+can be instantiated with it; `C13_release_only_after_dwell_sys_run` does so for the dwell theorem. -/
+
+section shellHistory
+variable [Scalar F]
+open Srtla.Link Srtla.SelShell
+
+/-- **A shell run, seen from link `j`, is a history of the alphabet.**  For every start state, event list
+(no uplink datagram processed at clock 0) and link index: the selection view of link `j` after
+`Sys.run s evs` is `StallLatch.run` of its view before, along `runSteps s evs j`. -/
+theorem C13_shell_run_is_history (s : Sys.Sys F) (evs : List Sys.Ev) (j : Nat) (l : FLink F)
+    (hl : s.links[j]? = some l)
+    (hclk : ∀ e ∈ evs, ∀ now cid data, e = .uplink now cid data → 0 < now) :
+    ∃ lf, (Sys.run s evs).1.links[j]? = some lf ∧ lf.toSLink = run l.toSLink (runSteps s evs j) :=
+  runSteps_sound s evs j l hl hclk
+
+/-- **What the steps of the history are.**  The history of a run is the concatenation, event by event, of
+`evSteps` (in the state the run had reached), and every step an event contributes is: an `env` step; or
+the pass step of THAT event — then the event is a client datagram for which `select_connection_idx` ran,
+and the step is `sel` with the event's clock and the configured `stall_min_in_flight` /
+`stall_stale_ceiling_ms` if the guard was on, `selOff` if it was off; or a `reset`.  So the `sel` steps of
+the history are exactly the shell's scheduling decisions with the guard on. -/
+theorem C13_history_steps (s : Sys.Sys F) (pre : List Sys.Ev) (e : Sys.Ev) (j : Nat) :
+    runSteps s (pre ++ [e]) j = runSteps s pre j ++ evSteps (Sys.run s pre).1 e j ∧
+    ∀ st ∈ evSteps (Sys.run s pre).1 e j,
+      (∃ x, st = .env x) ∨
+      (∃ now pkt, e = .client now pkt ∧ pkt ≠ [] ∧ (Sys.run s pre).1.reg.hasConnected = true ∧
+        st = if (Sys.run s pre).1.cfg.stallDeselect = true
+             then .sel now (Sys.run s pre).1.cfg.stallMinInFlight (Sys.run s pre).1.cfg.stallCeilingMs
+             else .selOff) ∨
+      st = .reset := by
+  refine ⟨runSteps_snoc s pre e j, fun st hst => ?_⟩
+  rcases evSteps_mem _ e j st hst with h | ⟨now, pkt, he, hp, hs⟩ | h
+  · exact .inl h
+  · obtain ⟨hne, hreg⟩ := (passRan_iff _ pkt).1 hp
+    refine .inr (.inl ⟨now, pkt, he, hne, hreg, ?_⟩)
+    rw [hs]
+    unfold passStep
+    cases (Sys.run s pre).1.cfg.stallDeselect <;> rfl
+  · exact .inr (.inr h)
+
+/-- The history of link `j` up to and including the guard pass of a client datagram routed at `now` in the
+state reached by `pre` (guard on there; `l` = link `j` in that state). -/
+def historyToPass (s : Sys.Sys F) (pre : List Sys.Ev) (now j : Nat) (l : FLink F) : List (Step F) :=
+  runSteps s pre j ++
+    [envTo l.toSLink (setT (Sys.run s pre).1.cfg.connTimeoutMs l.toSLink),
+     .sel now (Sys.run s pre).1.cfg.stallMinInFlight (Sys.run s pre).1.cfg.stallCeilingMs]
+
+/-- `historyToPass` is a prefix of the history of the run extended by that client datagram. -/
+theorem historyToPass_prefix (s : Sys.Sys F) (pre : List Sys.Ev) (now : Nat) (pkt : Sys.Bytes) (j : Nat)
+    (l l' : FLink F) (hl : (Sys.run s pre).1.links[j]? = some l)
+    (hl' : (Sys.run s (pre ++ [.client now pkt])).1.links[j]? = some l')
+    (hne : pkt ≠ []) (hreg : (Sys.run s pre).1.reg.hasConnected = true)
+    (hon : (Sys.run s pre).1.cfg.stallDeselect = true) :
+    ∃ rest, runSteps s (pre ++ [.client now pkt]) j = historyToPass s pre now j l ++ rest := by
+  rw [run_snoc_fst] at hl'
+  have hp : passRan (Sys.run s pre).1 pkt = true := (passRan_iff _ pkt).2 ⟨hne, hreg⟩
+  obtain ⟨m, -, hcase⟩ := client_guard (Sys.run s pre).1 pkt now j l l' hl hl'
+  rcases hcase with ⟨hp', -⟩ | ⟨-, hm⟩
+  · rw [hp] at hp'; cases hp'
+  · rw [runSteps_snoc, evSteps_client_pass _ now pkt j l l' m hl hl' hp hm]
+    refine ⟨[envTo (passView (Sys.run s pre).1 now l) m.toSLink] ++ stepsTo m.toSLink l'.toSLink, ?_⟩
+    unfold historyToPass passStep
+    rw [hon]
+    simp only [if_true, List.append_assoc, List.cons_append, List.nil_append]
+
+/-- **Release only after the dwell, along runs of the shell** (ghost-free form).  Take any start state in
+which link `j` is not in the middle of a recovery run, any run `pre` of the shell (no uplink datagram
+processed at clock 0), and a following client datagram at `now` that finds the guard on and takes link `j`
+from latched to un-latched without tearing it down.  Then the history of link `j` up to and including that
+pass (`historyToPass`) ends in a `FreshRun` — a segment whose first step is a pass at some time `t0`,
+which consists of passes and environment steps only (no tear-down of the link, no guard-off pass), and in
+which EVERY pass — i.e. every scheduling decision the shell took from `t0` on — found the link latched
+with fresh proof (each at its own clock, RTT baseline and configured ceiling) — and
+`now − t0 ≥ 2 × clamp(4 × smoothed RTT, 1000, ceiling)` evaluated at the releasing decision. -/
+theorem C13_release_only_after_dwell_sys_run (s : Sys.Sys F) (pre : List Sys.Ev) (now : Nat)
+    (pkt : Sys.Bytes) (j : Nat) (l0 l l' : FLink F)
+    (hl0 : s.links[j]? = some l0) (h0 : l0.latchedSince ≠ 0 → l0.recoverySince = 0)
+    (hclk : ∀ e ∈ pre, ∀ now cid data, e = .uplink now cid data → 0 < now)
+    (hl : (Sys.run s pre).1.links[j]? = some l)
+    (hl' : (Sys.run s (pre ++ [.client now pkt])).1.links[j]? = some l')
+    (hon : (Sys.run s pre).1.cfg.stallDeselect = true)
+    (hlat : l.latchedSince ≠ 0) (hrel : l'.latchedSince = 0) (hnt : ¬ TornDown l') :
+    ∃ pre' suf t0, historyToPass s pre now j l = pre' ++ suf ∧
+      FreshRun (run l0.toSLink pre') suf t0 (run l0.toSLink (historyToPass s pre now j l)) ∧
+      now - t0 ≥ 2 * effStale l.toSLink (Sys.run s pre).1.cfg.stallCeilingMs := by
+  have hl'' := hl'
+  rw [run_snoc_fst] at hl''
+  -- the pass released
+  have hcond : (l.core.proofMs ≠ 0 ∧ now - l.core.proofMs < effStale l.toSLink (Sys.run s pre).1.cfg.stallCeilingMs) ∧
+      now - (if l.recoverySince = 0 then now else l.recoverySince) ≥
+        2 * effStale l.toSLink (Sys.run s pre).1.cfg.stallCeilingMs := by
+    rcases C13_unlatch_only_by_sys _ _ j l l' hl hl'' hlat hrel with t | ⟨now', pkt', he, -, -, h⟩
+    · exact absurd t hnt
+    · cases he
+      rcases h with h | ⟨-, h⟩
+      · rw [hon] at h; cases h
+      · exact h
+  have hsel0 : (sel l.toSLink now (Sys.run s pre).1.cfg.stallMinInFlight
+      (Sys.run s pre).1.cfg.stallCeilingMs).latchedSince = 0 :=
+    (C13_release_iff l.toSLink now _ _ hlat).2 hcond
+  -- the view reached by the history of `pre` is `l`'s
+  obtain ⟨lf, hlf, hview⟩ := runSteps_sound s pre j l0 hl0 hclk
+  rw [hl] at hlf
+  cases hlf
+  have hstamp : run l0.toSLink (runSteps s pre j ++
+      [envTo l.toSLink (setT (Sys.run s pre).1.cfg.connTimeoutMs l.toSLink)]) =
+      setT (Sys.run s pre).1.cfg.connTimeoutMs l.toSLink := by
+    rw [run_snoc, ← hview]
+    exact step_envTo _ _ ⟨rfl, rfl, rfl, rfl, rfl, rfl⟩ (.inl rfl)
+  have hsplit : historyToPass s pre now j l =
+      (runSteps s pre j ++ [envTo l.toSLink (setT (Sys.run s pre).1.cfg.connTimeoutMs l.toSLink)]) ++
+        [.sel now (Sys.run s pre).1.cfg.stallMinInFlight (Sys.run s pre).1.cfg.stallCeilingMs] := by
+    unfold historyToPass
+    simp only [List.append_assoc, List.cons_append, List.nil_append]
+  rw [hsplit]
+  have h1 : (run l0.toSLink (runSteps s pre j ++
+      [envTo l.toSLink (setT (Sys.run s pre).1.cfg.connTimeoutMs l.toSLink)])).latchedSince ≠ 0 := by
+    rw [hstamp]; exact hlat
+  have h2 : (run l0.toSLink ((runSteps s pre j ++
+      [envTo l.toSLink (setT (Sys.run s pre).1.cfg.connTimeoutMs l.toSLink)]) ++
+      [.sel now (Sys.run s pre).1.cfg.stallMinInFlight (Sys.run s pre).1.cfg.stallCeilingMs])).latchedSince = 0 := by
+    rw [run_snoc, hstamp]
+    show (sel (setT _ l.toSLink) now _ _).latchedSince = 0
+    rw [sel_setT]
+    exact hsel0
+  obtain ⟨pre', suf, t0, a, b, c⟩ := C13_release_only_after_dwell_trace l0.toSLink h0 _ now _ _ h1 h2
+  refine ⟨pre', suf, t0, a, b, ?_⟩
+  rw [hstamp] at c
+  exact c
+
+/-- The history of link 0 of `exShell` along the release cycle of §12: its passes are the four client
+datagrams (all found the guard on), there is no `reset` and no guard-off pass in it, and running the
+alphabet along it gives the link's view after the shell run (`C13_shell_run_is_history`): un-latched. -/
+example :
+    let evs : List Sys.Ev := [.client 5000 exData9, .uplink 5500 1 exSack5, .client 6000 exData9,
+      .uplink 7500 1 exSack7, .client 7999 exData9, .client 8000 exData9]
+    passTimes (@runSteps Int fixScalar exShell evs 0) = [5000, 6000, 7999, 8000] ∧
+    (@runSteps Int fixScalar exShell evs 0).length = 18 ∧
+    (run (@FLink.toSLink Int fixScalar exShell.links[0]) (@runSteps Int fixScalar exShell evs 0)).latchedSince = 0 ∧
+    (run (@FLink.toSLink Int fixScalar exShell.links[0])
+      (@runSteps Int fixScalar exShell (evs.take 5) 0)).latchedSince = 5000 := by
+  decide +kernel
+
+end shellHistory
 
 end Srtla.Props.C13
